@@ -123,7 +123,7 @@ def generate():
     lits = load_py_literals()
     L = []
     L.append("(* GENERATED by tools/translate/magics.py from /repo on every run. Do not edit. *)")
-    L.append("From Coq Require Import ZArith List String.\nImport ListNotations.\nOpen Scope Z_scope.\nOpen Scope string_scope.\n")
+    L.append("From Coq Require Import ZArith List String.\nImport ListNotations.\nOpen Scope Z_scope.\nLocal Open Scope string_scope.\n")
     L.append("Definition magicint2version : list (Z * string) := [\n  " + ";\n  ".join(f"({k}, {C.slit(v)})" for k, v in data["magicint2version"]) + "].\n")
     L.append("Definition magic_tuple : list (Z * option (list Z)) := [\n  " + ";\n  ".join(f"({k}, {C.optlit(t, C.zlist)})" for k, t in data["magic_tuple"]) + "].\n")
     L.append("Definition versions_tbl : list (list Z * string) := [\n  " + ";\n  ".join(f"({C.zlist(k)}, {C.slit(v)})" for k, v in data["versions"]) + "].\n")
@@ -147,6 +147,19 @@ def generate():
             rel.append((k, int(m.group(1)), int(m.group(2)), int(m.group(3) or 0)))
     L.append("(* plain CPython release names d.d[.d] among the keys of xdis.magics.magics *)")
     L.append("Definition release_names : list (string * (Z * Z * Z)) := [\n  " + ";\n  ".join(f"({C.slit(k)}, ({a}, {b}, {c}))" for k, a, b, c in rel) + "].\n")
+    # PyPy files of the historical corpus: (magic int, [major; minor]) read from the test tree
+    import glob
+    corpus = set()
+    for dname in sorted(glob.glob(os.path.join(C.REPO, "test", "bytecode_*pypy*"))):
+        m = re.search(r"bytecode_(?:pypy)?(\d)\.?(\d+)(?:pypy)?$", os.path.basename(dname))
+        if not m:
+            continue
+        for f in sorted(glob.glob(os.path.join(dname, "*.pyc"))):
+            with open(f, "rb") as fh:
+                b = fh.read(4)
+            corpus.add((b[0] + 256 * b[1], int(m.group(1)), int(m.group(2)), tuple(b)))
+    L.append("(* PyPy files under /repo/test: (magic int, [major; minor], 4 magic bytes) *)")
+    L.append("Definition corpus_pypy : list (Z * list Z * list Z) := [" + "; ".join(f"({m}, [{a}; {b}], {C.zlist(bs)})" for m, a, b, bs in sorted(corpus)) + "].")
     C.write_if_changed(os.path.join(C.GEN, "Magics.v"), "\n".join(L) + "\n")
 
     inst = installed_magics()
